@@ -22,6 +22,11 @@
 5. "hookskip" rows: emitted runs with unselected elements once more, the exclusion now done at run time by a
    before_feature / before_rule / before_scenario hook calling skip() on its element (no tags, no tag expression):
    the stream and the reports must be those of the tag-excluded run.
+6. "decor" rows: small programs whose steps carry data tables and doc-strings (run/render.py renders none): tables
+   with distinct headings, with a repeated heading written literally (| name | coord | coord |) and with a repeated
+   heading produced by outline placeholders in the heading row that get the same Examples value, cells pairwise
+   different, empty cells; one-line and multi-line doc-strings.  The tables / doc-strings of the JSON report must be
+   those of the model after the run (step.table.headings, row.cells, step.text), cell by cell (C15.json_mirror).
 TLC (Consumers_Trace) judges all rows: grammar of the recorded stream, json_valid, json_mirror, json_readback,
 plain_once, progress_once, agree, no_crash.  Python renders, runs, reads files and maps locations to ids."""
 import bisect
@@ -278,6 +283,142 @@ def hookskip_case(job):
         return {"key": job["key"], "driver_error": traceback.format_exc()}
 
 
+# ------------------------------------------------------------------------------------------------ decorated renderings
+TABLES = [
+    {"headings": ["name", "value"], "rows": [["a1", "b1"], ["a2", "b2"]]},
+    {"headings": ["name", "coord", "coord"], "rows": [["n1", "x1", "y1"], ["n2", "x2", "y2"]]},       # repeated heading
+    {"headings": ["k", "k", "k"], "rows": [["1", "2", "3"]]},
+    {"headings": ["only"], "rows": [["r1"], ["r2"], ["r3"]]},
+    {"headings": ["a b", "c"], "rows": [["", "x y"], ["u", ""]]},
+    {"headings": ["coord", "name", "coord"], "rows": [["x1", "n1", "y1"]]},
+]
+# for outline steps: <h1> / <h2> are extra Examples columns; rows alternate (c, c) -- the headings coincide -- and (c, d)
+OUTLINE_TABLES = [
+    {"headings": ["<h1>", "<h2>", "z"], "rows": [["p1", "p2", "p3"], ["<h1>!", "q2", "q3"]]},
+    {"headings": ["z", "<h2>", "<h1>"], "rows": [["s1", "s2", "s3"]]},
+]
+TEXTS = [["one line"], ["line 1", "line 2"], ["first", "", "third"]]
+OUTLINE_TEXTS = [["value <h1> here"], ["<h1>", "and <h2>"]]
+H_VALUES = [("c", "c"), ("c", "d")]
+
+
+_Rendered = stage.drive.Rendered
+
+
+class Decorated(_Rendered):
+    """the rendering of run/render.py with data tables / doc-strings under chosen own steps; `decor` = list of
+    {"el": scenario or outline id, "k": own step number, "table": {headings, rows} | "text": [lines]}; outlines whose
+    decoration uses <h1> / <h2> get these as extra Examples columns.  Lines are only inserted, so every registered
+    location moves down by the number of lines inserted above it."""
+    decor = []
+
+    def __init__(self, prog, flat):
+        _Rendered.__init__(self, prog, flat)
+        kinds = {e["id"]: e["kind"] for e in flat["elems"]}
+        fidx = {e["id"]: e["fidx"] for e in flat["elems"]}
+        for fi, (name, text) in enumerate(self.files):
+            lines = text.split("\n")
+            inserts = {}                    # old line number -> lines to put behind it
+            need_cols = set()
+            for d in self.decor:
+                if fidx.get(d["el"]) != fi:
+                    continue
+                at = self.line_of[d["el"]] + d["k"]
+                ind = " " * (len(lines[at - 1]) - len(lines[at - 1].lstrip()) + 2)
+                if "table" in d:
+                    t = d["table"]
+                    new = [ind + "| " + " | ".join(r) + " |" for r in [t["headings"]] + t["rows"]]
+                else:
+                    new = [ind + '"""'] + [ind + l if l else "" for l in d["text"]] + [ind + '"""']
+                inserts.setdefault(at, []).extend(new)
+                if kinds[d["el"]] == "outline":
+                    need_cols.add(d["el"])
+            for el in sorted(need_cols):                # extra Examples columns, up to the next element of the file
+                j, header, n = self.line_of[el], False, 0
+                while j < len(lines) and not lines[j].lstrip().startswith(("Scenario", "Rule:")):
+                    st = lines[j].strip()
+                    if st.startswith("Examples:"):
+                        header = True
+                    elif st.startswith("|"):
+                        if header:
+                            lines[j] += " h1 | h2 |"
+                            header = False
+                        else:
+                            lines[j] += " %s | %s |" % H_VALUES[n % len(H_VALUES)]
+                            n += 1
+                    j += 1
+            out, shift = [], {}
+            added = 0
+            for no, line in enumerate(lines, 1):
+                shift[no] = no + added
+                out.append(line)
+                if no in inserts:
+                    out.extend(inserts[no])
+                    added += len(inserts[no])
+            self.files[fi] = (name, "\n".join(out))
+            for key in [k for k in self.by_loc if k[0] == fi]:
+                el = self.by_loc.pop(key)
+                self.by_loc[(fi, -key[1])] = el          # two phases: old and new line numbers overlap
+            for key in [k for k in self.by_loc if k[0] == fi and k[1] < 0]:
+                el = self.by_loc.pop(key)
+                self.by_loc[(fi, shift[-key[1]])] = el
+                self.line_of[el] = shift[-key[1]]
+
+
+def decor_case(job):
+    """run_case on the decorated rendering of the job's program"""
+    import traceback
+    try:
+        cls = type("DecoratedCase", (Decorated,), {"decor": job["decor"]})
+        orig = stage.drive.Rendered
+        stage.drive.Rendered = cls
+        try:
+            row = stage.drive.run_case(run_job({k: v for k, v in job.items() if k != "decor"}), reports=True)
+        finally:
+            stage.drive.Rendered = orig
+        row["key"] = job["key"]
+        return row
+    except Exception:
+        return {"key": job["key"], "driver_error": traceback.format_exc()}
+
+
+def decor_jobs(chk, rnd):
+    """programs with an optional feature background, two scenarios and an outline with two rows; every own step gets
+    a table, a doc-string or nothing; each table of TABLES / OUTLINE_TABLES occurs in every job's neighbourhood"""
+    jobs = []
+    n = 48 if chk.quick() else 600
+    outs = ["pass", "pass", "pass", "fail", "undefined"]
+    for i in range(n):
+        def steps(m):
+            return [rnd.choice(outs) for _ in range(m)]
+        sc1, sc2 = G.scenario(steps(2)), G.scenario(steps(3))
+        ol = G.outline([([], [steps(2), steps(2)])])
+        ol["blocks"][0]["rows"][1] = [dict(x) for x in ol["blocks"][0]["rows"][0]] if rnd.random() < 0.5 else ol["blocks"][0]["rows"][1]
+        prog = {"features": [G.feature(rnd.sample([sc1, sc2, ol], 3), bg=["pass"] if i % 3 == 0 else None)], "family": "decor"}
+        flat = G.flatten(prog)
+        decor = []
+        for e in flat["elems"]:
+            if e["kind"] == "scenario" and flat["elems"][e["parent"] - 1]["kind"] != "outline":
+                nown, pool_t, pool_x = sum(1 for st in e["steps"] if st["org"] == "own"), TABLES, TEXTS
+            elif e["kind"] == "outline":
+                nown = sum(1 for st in flat["elems"][e["children"][0] - 1]["steps"] if st["org"] == "own")
+                pool_t, pool_x = OUTLINE_TABLES + TABLES[1:2], OUTLINE_TEXTS
+            else:
+                continue
+            for k in range(1, nown + 1):
+                c = (i + k + e["id"]) % 4
+                if c in (0, 1):
+                    decor.append({"el": e["id"], "k": k, "table": pool_t[(i + 2 * k + e["id"]) % len(pool_t)]})
+                elif c == 2:
+                    decor.append({"el": e["id"], "k": k, "text": pool_x[(i + k) % len(pool_x)]})
+        job = {"key": ["decor", i], "prog": prog, "flat": flat, "cfg": G.cfg(dry=(i % 5 == 4), show_skipped=True), "fault": [0, 0],
+               "fault_kind": "exc", "pass": "decor", "decor": decor, "switches": [[], ["--no-multiline"]][i % 2]}
+        if i % 4 == 3:
+            job["formats"] = ["json.pretty", "plain", "pretty"]
+        jobs.append(job)
+    return jobs
+
+
 def pmap(fn, jobs):
     if PROCS <= 1 or len(jobs) < 20:
         return [fn(j) for j in jobs]
@@ -330,7 +471,7 @@ def describe(job, row):
                             for e in row["events"])[:1500],
          "json": row["reports"]["json"]["features"], "plain": [[l["scen"], l["pos"], l["status"]] for l in row["reports"]["plain"]["lines"]],
          "p3": [[l["scen"], "".join(l["chars"])] for l in row["reports"]["p3"]["lines"]],
-         "readback": {k: row["reports"]["readback"][k] for k in ("parse_exc", "exc")}}
+         "readback": {k: row["reports"]["readback"][k] for k in ("parse_exc", "exc")}, "tables": row["reports"]["tables"]}
     return json.dumps(d, sort_keys=True)
 
 
@@ -342,7 +483,7 @@ def judge(chk, rows, jobs):
         for v in vs:
             payload = {k: job[k] for k in ("key", "prog", "cfg", "fault", "fault_kind")}
             payload.update({"pass": row["pass"], "formats": row["formats"], "switches": job.get("switches", []),
-                            "skip_hooks": job.get("skip_hooks", [])})
+                            "skip_hooks": job.get("skip_hooks", []), "decor": job.get("decor", [])})
             chk.violation(v[2].split("/")[0], signature(v, row), describe(job, row), payload)
     return verdicts
 
@@ -407,7 +548,9 @@ def run(chk):
     design_out = stage.drive_all([run_job({k: v for k, v in j.items() if k != "case"}) for j in djobs], procs=PROCS)
     hjobs = [j for j in (hookskip_job(n, c) for n, c in enumerate(emitted)) if j is not None]
     hook_out = pmap(hookskip_case, hjobs)
-    verdicts.update(judge(chk, add_rows(djobs + hjobs, design_out + hook_out), jobs))
+    tjobs = decor_jobs(chk, rnd)
+    decor_out = pmap(decor_case, tjobs)
+    verdicts.update(judge(chk, add_rows(djobs + hjobs + tjobs, design_out + hook_out + decor_out), jobs))
     # spec vs implementation (informational): the automata on every recorded stream; the generator on the design rows
     div = tagged(chk, "DIVERGE")
     ddiv = []
@@ -429,7 +572,12 @@ def run(chk):
     chk.exhaustive = False
     chk.extra["distinct_nontrivial"] = len({json.dumps([x["prog"], x["cfg"], x["formats"], x["events"]], sort_keys=True)
                                             for x in rows if any(e["name"] == "result" for e in x["events"])})
-    chk.extra["rows"] = {"reports": len(base), "formats": len(fjobs), "design": len(djobs), "hookskip": len(hjobs)}
+    chk.extra["rows"] = {"reports": len(base), "formats": len(fjobs), "design": len(djobs), "hookskip": len(hjobs), "decor": len(tjobs)}
+    drows = [x for x in rows if x["pass"] == "decor"]
+    chk.extra["decor_tables_compared"] = sum(len(x["reports"]["tables"]["json"]) for x in drows)
+    chk.extra["decor_tables_with_repeated_heading"] = sum(1 for x in drows for t in x["reports"]["tables"]["json"]
+                                                          if len(set(t["headings"])) < len(t["headings"]))
+    chk.extra["decor_doc_strings_compared"] = sum(len(x["reports"]["tables"]["jtext"]) for x in drows)
     chk.extra["planned_cases_of_shared_plan"] = planned
     chk.extra["rows_run_died_in_formatter"] = sum(1 for x in rows if not x["end"]["ran"] and x["last_k"] == "fmt")
     chk.extra["rows_not_judged_died_elsewhere"] = len(notjudged)
@@ -460,8 +608,8 @@ def run(chk):
                        "--no-junit --no-summary in all runs, so that a run that dies did so inside a formatter callback",
                        "configurations of the shared plan with scenario_autoretry are run without it: a retried scenario is announced "
                        "twice, about which the statement is silent",
-                       "tables / doc-strings / unicode texts of steps are not generated by the run cluster's programs: that part of "
-                       "C15.json_mirror is not judged here",
+                       "tables and doc-strings of steps are judged on the decor rows only (the run cluster's programs have none); "
+                       "unicode step texts are not generated",
                        "read-back: structure and step statuses only (JsonParser does not read element statuses)",
                        "scenario variant `progress` and pretty / steps / rerun are judged for C15.no_crash only (the statement's report "
                        "clauses name json, plain and the step progress formatters)"]
@@ -476,7 +624,10 @@ def replay(chk, payload):
     if rp.get("formats") and rp["formats"] != DEFAULT_FORMATS:
         job["formats"] = rp["formats"]
     job["switches"] = rp.get("switches", [])
-    if rp.get("skip_hooks"):
+    if rp.get("decor"):
+        job["decor"] = rp["decor"]
+        o = decor_case(job)
+    elif rp.get("skip_hooks"):
         job["skip_hooks"] = rp["skip_hooks"]
         o = hookskip_case(job)
     else:
